@@ -67,7 +67,8 @@ CLAIMED = {
         "unit L decides positive/negative definiteness, zero, or indefiniteness of the quadratic form; GenericSign predicates "
         "are exclusive and exhaustive. Stated, not proved (tie only): abs v is positive and abs is idempotent; the "
         "certificate classifier <-> eigenvalue definition. Tie: all (dc,nyquist) sign classes for d<=32 (64), products, abs, "
-        "to_vector, SemanticPointer.sign()/abs(); VTB/TVTB matrices from certificates s<=4 (7) incl. non-symmetric.",
+        "to_vector, SemanticPointer.sign()/abs(); VTB/TVTB matrices from certificates s<=4 (7) incl. non-symmetric, singular "
+        "semi-definite and rounded-symmetric large ones (one defect repaired: sign of singular matrices decided by rounding).",
         "Trusted: Coq kernel + vm_compute; models Model/Hrr.v, Model/Sign.v; LAPACK eigvalsh / NumPy rfft observed only "
         "through results, boundary cases restricted to inputs on which rfft is exact; two known findings replayed each run.",
         "DESIGN.md section 5, C17",
@@ -79,10 +80,14 @@ CLAIMED = {
         "Theorems for every commutative ring, dimension, vector: HRR/VTB/TVTB integer power = left-nested n-fold binding "
         "(n>=1), identity for 0, same power of the inverse for n<0; HRR and TVTB exponents of equal sign add; a vector that "
         "is unitary in the algebra's sense (HRR: v*~v=e0; VTB: sV^TV=I; TVTB: sVV^T=I / sV^TV=I) preserves all dot products "
-        "on the side(s) the algebra supports and its inverse undoes the binding. PARTIAL: that make_unitary / UnitaryVectors "
-        "output such vectors and are idempotent, and the HRR fractional-exponent addition law, are not theorems (HRR needs a "
-        "Fourier layer over R[i]; VTB/TVTB row-orthogonalisation uses np.linalg.solve): they are relation-checked inside Coq "
-        "on every generated output (unitarity, fixed point, isometry on integer partners, unbinding). Tie: powers -6..6 for "
+        "on the side(s) the algebra supports and its inverse undoes the binding. HRR in the Fourier domain, every d "
+        "(Theory/Fourier.v, FourierMore.v): powers raise each spectral coefficient, a unitary vector has a unit-modulus "
+        "spectrum, whatever vector has the spectrum F_k/|F_k| (what make_unitary feeds to irfft) is unitary and normalising "
+        "it again changes nothing, spectra additive in the exponent give a^(x+y) = a^x * a^y for real exponents. PARTIAL: "
+        "that NumPy's rfft/irfft produce those spectra, and the VTB/TVTB row-orthogonalisation (np.linalg.solve), are not "
+        "theorems: make_unitary / UnitaryVectors outputs and fractional powers are relation-checked inside Coq on every "
+        "generated output (unitarity, fixed point, isometry on integer partners, unbinding), incl. structured / singular "
+        "inputs. Two defects found and repaired (HRR make_unitary with coefficients vanishing up to rounding). Tie: powers -6..6 for "
         "d<=25 (thorough 64/49) via algebra API and SemanticPointer.__pow__.",
         "Trusted: Coq kernel + vm_compute; models Model/Power.v etc.; NumPy FFT/solve observed through results; SciPy absent "
         "(fractional VTB/TVTB powers raise ImportError, modelled as such); tolerances 1e-8 on relation checks.",
@@ -109,11 +114,16 @@ CLAIMED = {
         "Theorems: two SemanticPointers are combined iff same vocabulary / one vocabulary-less / both vocabulary-less with the "
         "same algebra; every rejection is SpaTypeError or TypeError and happens before any value (operations are gated first); "
         "the result carries the operands' vocabulary, a vocabulary-less operand adopting the other's; dot/compare/mse are gated "
-        "too; bare arrays rejected by + - * /. For symbols and dynamic nodes every route ends in coerce_types (C11 theorems). "
-        "Tie: exhaustive matrix 8 operators x 20 operand descriptors squared (kinds: pointer with/without vocabulary incl. "
+        "too; bare arrays rejected by + - * /. For symbols and dynamic nodes every route ends in coerce_types (C11 theorems); "
+        "type-level theorems over the whole operand matrix (Theory/DispatchLaws.v): operands of two different vocabularies "
+        "are rejected for every operator and every pair of operand families, a vocabulary of another dimensionality than an "
+        "any-of-d operand is rejected, equal vocabularies are accepted with the result carrying it, a bare array never "
+        "combines arithmetically with a pointer operand. "
+        "Tie: exhaustive matrix 10 operators x 47 operand descriptors squared (kinds: pointer with/without vocabulary incl. "
         "other algebra/length, symbol typed/untyped, dynamic pointer, dynamic scalar, numbers, array) vs Model/Dispatch.v; "
         "history clause: all sequences (length <= 2 quick / 3 thorough + random to 12) of a vocabulary-less pointer meeting "
-        "three vocabularies through +, *, dot, reflected +. Three defects found by this check were repaired in /repo.",
+        "three vocabularies through +, *, dot, reflected +. Four defects found by this check were repaired in /repo (the last: "
+        "a length-1 pointer broadcasting against any other length).",
         "Trusted: Coq kernel + vm_compute; Model/Dispatch.v is a specification-level decision table ('free' cells are "
         "combinations the DSL does not implement); vocabulary-less pointers carry no dimensionality in their type, so their "
         "length mismatches are not claimed; harness.",
@@ -246,8 +256,12 @@ CLAIMED = {
         "rejected. PARTIAL: 'ideal neurons', holding with feedback 1 and the independence of neurons are runtime behaviour "
         "of Nengo: checked by Direct-mode simulation of every split at d <= 8 (thorough 16), a feedback run, and seeded "
         "LIFRate runs (inhibit all / drive one entry). Tie: every (d, sub) with sub | d, d <= 24 (thorough 64): slices, "
-        "ensemble sizes, neuron slices, add_output slices read from the built graph. One defect (add_output on degenerate "
-        "splits) found and repaired.",
+        "ensemble sizes, neuron slices, add_output slices read from the built graph; list-valued add_output (one function per "
+        "ensemble / three functions) in Direct mode. Feedback (Model/StateDyn.v, the recurrence Nengo steps with ideal "
+        "neurons, confirmed to 1e-16): theorems - with feedback 1 the value is held for every number of steps whatever the "
+        "synapse, in general it decays as (a + (1-a) f)^n, with feedback 0 nothing is kept; traces for several splits, modes "
+        "and synapses are compared with the model in Coq. Two defects (add_output on degenerate splits; the three-function "
+        "form with several remaining ensembles) found and repaired.",
         "Trusted: Coq kernel; Model/IdEnsArray.v; Nengo's connection semantics and Direct / LIFRate neuron models; harness "
         "graph reader.",
         "DESIGN.md section 5, C16",
@@ -263,8 +277,11 @@ CLAIMED = {
         "norm, 1/sqrt(d) scaling of the draws, pairwise orthonormality and exhaustion after d, unitarity, HRR positivity, "
         "and for EquallySpacedPositiveUnitaryHrrVectors the fixed step (v_{j+1} = v_j*step incl. the wrap-around), offset 0 = "
         "identity, offset+1 = one step, offsets add under binding, are relation-checked in Coq by integer arithmetic on the "
-        "dyadic outputs for every yielded vector (d up to 24 / thorough 64, n to 6 / 16, five offsets); the Fourier-domain "
-        "proof over the reals is not done. Same-seed reproducibility and different-seed difference are tested.",
+        "dyadic outputs for every yielded vector (d up to 24 / thorough 64, n to 6 / 16, five offsets). Fourier domain, every "
+        "d and n (Theory/EquallySpaced.v): real vectors with the spectra o_k r_k^j that the generator feeds to irfft are each "
+        "the previous one bound with one fixed step, return to the first after n steps when r_k^n = 1, start at the identity "
+        "for offset 0 and are all unitary; that NumPy's irfft realises those spectra stays numeric. Every entry point "
+        "(next, iteration, .next()) and consumers that modify yielded vectors are exercised. Same-seed reproducibility and different-seed difference are tested.",
         "Trusted: Coq kernel + vm_compute; NumPy RandomState / FFT / solve observed through results; SciPy absent "
         "(positive VTB/TVTB vectors raise ImportError); tolerance 1e-8 / 1e-7 on relations.",
         "DESIGN.md section 5, C19",
